@@ -24,15 +24,17 @@ func CopyEvent(e *gostatsd.Event) *gostatsd.Event {
 
 // Sink is a capturing PipelineHandler. It deep-copies what it receives at the time of the call.
 type Sink struct {
-	mu        sync.Mutex
-	Maps      []*gostatsd.MetricMap
-	RawMaps   []*gostatsd.MetricMap
-	Events    []*gostatsd.Event
-	RawEvents []*gostatsd.Event
-	Tags      int
-	notify    chan struct{}
-	gate      chan struct{}
-	WaitCalls int32
+	mu          sync.Mutex
+	Maps        []*gostatsd.MetricMap
+	RawMaps     []*gostatsd.MetricMap
+	Events      []*gostatsd.Event
+	RawEvents   []*gostatsd.Event
+	Tags        int
+	notify      chan struct{}
+	gate        chan struct{}
+	mapGate     chan struct{}
+	mapsWaiting int32
+	WaitCalls   int32
 }
 
 func NewSink() *Sink { return &Sink{notify: make(chan struct{}, 1)} }
@@ -46,7 +48,25 @@ func (s *Sink) poke() {
 	}
 }
 
+// SetMapGate makes DispatchMetricMap block until the gate is closed (nil removes it); MapsWaiting says how many
+// dispatches are blocked at it.
+func (s *Sink) SetMapGate(g chan struct{}) {
+	s.mu.Lock()
+	s.mapGate = g
+	s.mu.Unlock()
+}
+
+func (s *Sink) MapsWaiting() int32 { return atomic.LoadInt32(&s.mapsWaiting) }
+
 func (s *Sink) DispatchMetricMap(ctx context.Context, mm *gostatsd.MetricMap) {
+	s.mu.Lock()
+	g := s.mapGate
+	s.mu.Unlock()
+	if g != nil {
+		atomic.AddInt32(&s.mapsWaiting, 1)
+		<-g
+		atomic.AddInt32(&s.mapsWaiting, -1)
+	}
 	c := gen.CopyMap(mm)
 	s.mu.Lock()
 	s.Maps = append(s.Maps, c)
